@@ -37,8 +37,14 @@ def handle (inp : List String) (obs : List String) : Outcome :=
         if impl = some spec then none
         else some (Verdict.oracle "C17" s!"channel {ch}: received {impl} but sent {spec} (exactly once, in order)")
       let v3 := if kv ots "intact" = some "1" then [] else [Verdict.oracle "C17" "a payload arrived corrupted"]
+      -- the other recipients of a broadcast (several connections served by one send loop)
+      let v4 := if _dir ≠ "dir=s2c" then [] else [1, 2].flatMap fun p => [0, 1, 2].filterMap fun ch =>
+        let impl := (kv ots s!"p{p}ch{ch}").bind seqList
+        let spec := (sent.filter (·.1 = ch)).map (·.2)
+        if impl = some spec then none
+        else some (Verdict.oracle "C17" s!"client {p}, channel {ch}: received {impl} but sent {spec} (exactly once, in order)")
       let piled := (kvNat ots "first_pass").getD 0
-      { verdicts := v1 ++ v2 ++ v3,
+      { verdicts := v1 ++ v2 ++ v3 ++ v4,
         stats := [s!"c17.msgs_{if total = 0 then "0" else if total < 4 then "1-3" else if total < 16 then "4-15" else if total < 48 then "16-47" else "48+"}",
                   s!"c17.first_pass_{if piled < 4 then "lt4" else if piled < 16 then "4-15" else "16+"}"],
         nontrivial := total ≥ 4 }
